@@ -48,8 +48,20 @@ def run(prog, chk):
     chk.rule(_C17b.limit_predicates, prog, chk)
 
 
-def template_source(prog, chk):
+def _reuse_body(prog):
+    """the body the instance is built in: ReuseElement::generate_events, or the closure of it the work was moved into
+    (`context.with_scope(el, |ctx| { .. })`) - whichever fetches the template"""
     ru = prog.body(REUSE)
+    if R.calls_to(ru, R.path_is(CTX + "::get_original_element")):
+        return ru
+    for cl in prog.closures_of(ru):
+        if R.calls_to(cl, R.path_is(CTX + "::get_original_element")):
+            return cl
+    return ru
+
+
+def template_source(prog, chk):
+    ru = _reuse_body(prog)
     chk.touch(ru)
     goe = R.calls_to(ru, R.path_is(CTX + "::get_original_element"))
     chk.floor("A10.template-source", len(goe), 1, "get_original_element call in ReuseElement")
@@ -239,7 +251,7 @@ def _reuse_local(ru):
 
 
 def identity_transfer(prog, chk):
-    ru = prog.body(REUSE)
+    ru = _reuse_body(prog)
     inst = _instance_local(ru)
     reuse = _reuse_local(ru)
     if inst is None or reuse is None:
